@@ -128,6 +128,17 @@ class CallGraph:
                 # call of a callable value: resolved by callback propagation below
                 self.resolved_sites += 1
                 self._add(f.qual, "<callable-value>", c, "callback")
+                if k == "param":
+                    # a parameter annotated type[C] that is called: a construction of C or of a subclass
+                    try:
+                        pt = self.ctx.ev.types.param_type(f, c.fn[1])
+                    except Exception:
+                        pt = None
+                    if pt is not None and pt[0] == "type" and pt[1][0] == "inst":
+                        c0 = self.prog.classes.get(pt[1][1])
+                        for cc in (self.prog.subclasses(c0) if c0 is not None else []):
+                            for m in self._ctor_targets(cc.qual):
+                                self._add(f.qual, m.qual, c, "ctor")
             else:
                 self.unresolved.append((f.qual, show(c.fn)))
             # callables passed as arguments
